@@ -186,6 +186,9 @@ func (c *canonCtx) canon(e any) string {
 	case *cypher.PartialComparison:
 		return "(pcmp " + string(t.Operator) + " " + c.canon(t.Right) + ")"
 	case *cypher.ArithmeticExpression:
+		if len(t.Partials) == 0 {
+			return c.canon(t.Left) // the parser wraps every operand of a unary sign in a partial-less arithmetic node
+		}
 		var sb strings.Builder
 		sb.WriteString("(arith " + c.canon(t.Left))
 		for _, p := range t.Partials {
@@ -194,7 +197,16 @@ func (c *canonCtx) canon(e any) string {
 		sb.WriteString(")")
 		return sb.String()
 	case *cypher.UnaryAddOrSubtractExpression:
-		return "(unary " + string(t.Operator) + " " + c.canon(t.Right) + ")"
+		// `-1` is read by the parser as unary minus applied to 1: the same literal
+		inner := c.canon(t.Right)
+		if t.Operator == cypher.OperatorSubtract {
+			for _, pre := range []string{"lit:int:", "lit:float:"} {
+				if rest, ok := strings.CutPrefix(inner, pre); ok && !strings.HasPrefix(rest, "-") {
+					return pre + "-" + rest
+				}
+			}
+		}
+		return "(unary " + string(t.Operator) + " " + inner + ")"
 	case *cypher.KindMatcher:
 		mode := "anyof"
 		if t.IsExclusive && len(t.Kinds) > 1 {
@@ -291,11 +303,19 @@ func (c *canonCtx) canon(e any) string {
 	return fmt.Sprintf("<%T>", e)
 }
 
-func (c *canonCtx) nodePattern(n *cypher.NodePattern) string {
-	props := "nil"
-	if n.Properties != nil {
-		props = c.canon(n.Properties)
+// patternProps: the builders store a bare *Parameter as pattern properties, the parser a *Properties wrapping it
+func (c *canonCtx) patternProps(p cypher.Expression) string {
+	if p == nil {
+		return "nil"
 	}
+	if param, ok := p.(*cypher.Parameter); ok {
+		return c.canon(&cypher.Properties{Parameter: param})
+	}
+	return c.canon(p)
+}
+
+func (c *canonCtx) nodePattern(n *cypher.NodePattern) string {
+	props := c.patternProps(n.Properties)
 	return "(node " + c.canon(n.Variable) + " [" + kindsRepr(n.Kinds) + "] " + props + ")"
 }
 
@@ -310,10 +330,7 @@ func (c *canonCtx) relPattern(r *cypher.RelationshipPattern) string {
 		}
 		rng = "range(" + f(r.Range.StartIndex) + ".." + f(r.Range.EndIndex) + ")"
 	}
-	props := "nil"
-	if r.Properties != nil {
-		props = c.canon(r.Properties)
-	}
+	props := c.patternProps(r.Properties)
 	// DirectionBoth and the undirected spelling are the same pattern; outbound/inbound are kept
 	return "(rel " + c.canon(r.Variable) + " [" + kindsRepr(r.Kinds) + "] dir" + fmt.Sprint(int(r.Direction)) + " " + rng + " " + props + ")"
 }
@@ -356,7 +373,9 @@ type bnode struct {
 	isNullOf  string // bAtom: canon of the operand when the atom is `x IS NULL`
 }
 
-func (n *bnode) connective() bool { return (n.kind == bAnd || n.kind == bOr || n.kind == bXor) && !n.kindTest }
+func (n *bnode) connective() bool {
+	return (n.kind == bAnd || n.kind == bOr || n.kind == bXor) && !n.kindTest
+}
 
 func strip(n *bnode) *bnode {
 	for n != nil && (n.kind == bGroup || (n.connective() && len(n.kids) == 1)) {
@@ -505,12 +524,15 @@ type deviations struct {
 	listUnderNot  bool // a bare connective directly below a Negation loses its grouping (NOT then binds its first operand)
 	allOfAsAnyOf  bool // an all-of kind test is read as any-of
 	relKindHoist  bool // kind tests on the relationship variable outside negations are pulled out of the connective they stand in, merged into one any-of and required globally
+	notNotAsNot   bool // `not not x` (a Negation directly below a Negation, no parentheses) is read back as a single negation
 }
 
-var deviationNames = []string{"xor-grouping-lost", "or-grouping-lost", "not-grouping-lost", "kind-all-of-emitted-as-any-of", "relationship-kind-test-hoisted-out-of-its-connective"}
+var deviationNames = []string{"xor-grouping-lost", "or-grouping-lost", "not-grouping-lost", "kind-all-of-emitted-as-any-of", "relationship-kind-test-hoisted-out-of-its-connective", "stacked-not-read-back-as-single-not"}
+
+const deviationMasks = 64
 
 func deviationSet(mask int) deviations {
-	return deviations{mask&1 != 0, mask&2 != 0, mask&4 != 0, mask&8 != 0, mask&16 != 0}
+	return deviations{mask&1 != 0, mask&2 != 0, mask&4 != 0, mask&8 != 0, mask&16 != 0, mask&32 != 0}
 }
 
 type token struct {
@@ -578,8 +600,12 @@ func linearise(n *bnode, d deviations, out *[]token) {
 	case bGroup:
 		grouped(func() { linearise(n.kids[0], d, out) })
 	case bNot:
-		*out = append(*out, token{op: "not"})
 		k := n.kids[0]
+		if d.notNotAsNot && k.kind == bNot {
+			linearise(k, d, out) // this NOT is swallowed
+			return
+		}
+		*out = append(*out, token{op: "not"})
 		if k.connective() && len(k.kids) > 1 && !d.listUnderNot {
 			grouped(func() { linearise(k, d, out) })
 		} else {
